@@ -69,7 +69,8 @@ def drive(mod, fn, args, script, gen_script=None):
     # context-manager helper's exit entry or as an argument of a logged helper
     import json as _json
     log = _json.loads(_json.dumps([list(map(plain, e)) for e in mod.LOG]).replace('"UnboundLocalError"', '"NameError"'))
-    return {"outcome": out, "log": log, "obj": plain(mod.O.state()),
+    obj = _json.loads(_json.dumps(plain(mod.O.state())).replace('"UnboundLocalError"', '"NameError"'))
+    return {"outcome": out, "log": log, "obj": obj,
             "globs": [mod.GLOB1, mod.GLOB2], "yields": yields}
 
 
